@@ -118,12 +118,20 @@ pub enum HrPath {
     ContainerReaderDeser,
     SingleWriterSer,
     SingleReaderDeser,
+    /// `SpecificDatumReader::<T>::builder().build()` + `read`
+    SpecificDatumReaderDeser,
+    /// `SpecificSingleObjectReader::<T>::new()` + `read`
+    SpecificSingleReaderDeser,
+    /// `SpecificSingleObjectWriter::<T>::builder().build()` + `write_ref`
+    SingleWriterBuilderSer,
+    /// the free function `write_avro_datum_ref`
+    WriteAvroDatumRef,
 }
 
 impl HrPath {
     /// the path decodes a string, so the allocation limit is read (and can reject even one byte)
     pub fn decodes(&self) -> bool {
-        matches!(self, HrPath::DatumReaderDeser | HrPath::ContainerReaderDeser | HrPath::SingleReaderDeser)
+        matches!(self, HrPath::DatumReaderDeser | HrPath::ContainerReaderDeser | HrPath::SingleReaderDeser | HrPath::SpecificDatumReaderDeser | HrPath::SpecificSingleReaderDeser)
     }
 }
 
